@@ -6,7 +6,7 @@ import c27_impl
 
 ID = 'C27'
 LEVEL = 'proof'
-PROPS = ['Props/C27.v', 'Findings/C27.v']
+PROPS = ['Props/C27.v']
 GEN = []
 TRUSTED = [
     'hand-written model Model/C27Inherit.v of EntityMeta.__init__ (direct bases, _all_bases_, _subclasses_, _root_, diamond rule), Discriminator.code2cls, '
@@ -17,7 +17,7 @@ TRUSTED = [
     'SQL meaning of  column IN (values)  /  1 = 1  /  0 = 1  (executed on SQLite in the search; other dialects share this code and are not executed)',
 ]
 ASSUMPTIONS = [
-    'discriminator values are pairwise different inside one tree (the complement, silently accepted by Pony, is the recorded finding)',
+    'discriminator values are compared as Pony does (dict key equality); the model maps distinct values to distinct integers',
     'rows of a table were created through Pony by classes of that tree (no foreign discriminator values, no NULL discriminators)',
     'one discriminator column per tree, declared on the root (Pony rejects anything else); composite keys and per-class attribute sets do not enter the statement',
     'the class refinement theorem covers an object first met through a reference typed as an ancestor; the NotImplementedError branch of _get_from_identity_map_ '
@@ -176,7 +176,7 @@ def correspondence(ctx):
         dist['modes'][spec['mode']] = dist['modes'].get(spec['mode'], 0) + 1
         if not accepted:
             dist['invalid_definitions'] += 1
-            if 'diamond-like' not in (err or ''):
+            if 'diamond-like' not in (err or '') and 'is already used by entity' not in (err or ''):
                 disagreements.append({'what': 'definition rejected for a reason outside the model', 'input': spec, 'impl': err})
                 continue
             add('negb (valid %s)' % name, 'valid', spec, err)
@@ -334,9 +334,13 @@ def search(ctx, deep):
             if 'MRO' in str(e) or 'consistent method resolution' in str(e): dist['rejected'] += 1; continue
             record(Failure('crash:%s' % type(e).__name__, 'C27 harness crashed: %s (hierarchy %s)' % (e, json.dumps(spec)), {'spec': spec, 'route': 'crash'})); continue
         except Exception as e:
+            if has_duplicates(spec) and 'is already used by entity' in str(e):
+                dist['duplicate_discriminators_rejected'] = dist.get('duplicate_discriminators_rejected', 0) + 1; evals += 1; continue      # refused at definition time (fix d645930)
             record(Failure('crash:%s' % type(e).__name__, 'C27 harness crashed: %s: %s (hierarchy %s)' % (type(e).__name__, e, json.dumps(spec)), {'spec': spec, 'route': 'crash'})); continue
         evals += ev; dist['hierarchies'] += 1
-        if has_duplicates(spec): dist['duplicate_discriminators'] += 1
+        if has_duplicates(spec):
+            dist['duplicate_discriminators'] += 1
+            record(Failure('duplicate-discriminator-accepted', 'C27: two classes of one tree with the same discriminator value are accepted (hierarchy %s)' % json.dumps(spec), {'spec': spec, 'route': 'accepted'}))
         if any(c['bases'] for c in spec['classes']): nontriv.add(json.dumps(spec, sort_keys=True))
         for f in fl: record(f)
     return Search(evaluations=evals, failures=failures, nontrivial=len(nontriv), distribution=dist, exhaustive=False, samples=[{'spec': specs[0]}])
@@ -347,7 +351,10 @@ def replay(ctx, data):
     spec = data['spec']
     try:
         ev, fl = check_hierarchy(spec, random.Random(ctx.seed), n_isinst=40)
+        if data.get('route') == 'accepted' and has_duplicates(spec):
+            return Failure('duplicate-discriminator-accepted', 'C27: duplicate discriminator values are accepted', data)
     except Exception as e:
+        if has_duplicates(spec) and 'is already used by entity' in str(e): return None
         return Failure('crash:%s' % type(e).__name__, 'C27 harness crashed: %s' % e, data)
     want = data.get('route')
     for f in fl:
@@ -356,11 +363,11 @@ def replay(ctx, data):
 
 
 LEVEL_TEXT = ('Machine-checked proof (Coq 8.16.1) over a model of Pony\'s entity inheritance: for every schema the metaclass accepts (any number of trees, multiple '
-              'inheritance with the diamond rule), _all_bases_ / _subclasses_ as computed class by class are exactly the transitive closure of the direct-base relation and '
-              'its inverse; the discriminator criteria of a query over e select exactly the rows created as e or a subclass; the SQL of isinstance(x, (c1..cn)) equals '
-              'Python isinstance (foreign-tree classes included); _parse_row_ and the identity-map refinement give back the creation class -- under pairwise different '
-              'discriminator values per tree, whose complement (silently accepted duplicates) is refuted by witnesses. The model is tied to the real metaclass and translator by '
-              'vm_compute correspondence on random hierarchies; reload routes and isinstance queries are searched end to end on SQLite against Python issubclass.')
+              'inheritance with the diamond rule, no discriminator value used twice in a tree -- checked at definition time since fix d645930), _all_bases_ / _subclasses_ as computed '
+              'class by class are exactly the transitive closure of the direct-base relation and its inverse; every accepted schema has pairwise different discriminator values per tree; '
+              'the discriminator criteria of a query over e select exactly the rows created as e or a subclass; the SQL of isinstance(x, (c1..cn)) equals Python isinstance '
+              '(foreign-tree classes included); _parse_row_ and the identity-map refinement give back the creation class. The model is tied to the real metaclass and translator by '
+              'vm_compute correspondence on random hierarchies (accepted and rejected ones); reload routes and isinstance queries are searched end to end on SQLite against Python issubclass.')
 LEVEL_NOTE = ('Trusted: Coq kernel + vm_compute; the hand-written model (no source translation) and its correspondence harness; SQL meaning of IN lists. Not covered by '
               'theorems: attribute/column sets of subclasses, composite keys, the NotImplementedError branch of class refinement (search only).')
 TECHNIQUE = 'Coq induction over definition order (structural recursion on the newest-first schema); vm_compute correspondence with the real EntityMeta and FuncIsinstanceMonad; end-to-end reload search on SQLite'
